@@ -41,6 +41,10 @@ CLAIMED = {
          "Model checking (TLC) of the kernel contract on all ordered pairs over {a,c}<=6(8), {a,c,g,t}<=3(4), IUPAC<=1(2) x bounds -1..4(7), with every exported case replayed on the real code and 1.5k (10k) random calls validated by the trace specification.",
          "TLC decides every verdict; the Go side only decodes inputs and tests set membership. The equal-length end-gap-free orientation is set-valued, and the third return value of FastLCSEGFScore is not judged.",
          "DESIGN.md 5 C09"),
+ "C07": ("TLC model checking of SeqLaws.tla (algebraic laws on all short sequences) and SeqHeap.tla (implementation-shaped heap with recycle pool against value semantics, all operation histories); every exported case and history is replayed on real obiseq.BioSequence objects with poisoned recycled slices, and SeqHeapTrace.tla validates random long histories run concurrently",
+         "The laws (RC.RC = id, RC of a subsequence, circular windows) hold on the value functions for all sequences of length <= 4 (quick) or <= 5 (thorough) over a 6/8-symbol sub-alphabet including '-', '[' and ']'; all histories of 3-5 (quick) or 4-6 (thorough) operations (new, copy, sub, rc, set, mutate, recycle, join) over <= 3 objects are enumerated and executed on the real code with ALL live objects compared after every step and checked for shared memory; the three complement tables are compared with the derived Bio!Comp on every symbol.",
+         "Trusted: TLC, the projection of a real object onto (String, Qualities, pairing_mismatches), hook H1 (poisoning of recycled slices). Bounded: lengths <= 5 exhaustively; <= 1200 symbols, 6 objects, 40 operations at random. Join only on receivers without qualities.",
+         "DESIGN.md 5 C07"),
 }
 
 NOT_YET = "check not built yet in this round (planned, see DESIGN.md 10); not claimed"
